@@ -278,7 +278,106 @@ func runC02(res *Result, rng *RNG, tier string, outDir string) {
 	}
 	c02CaptureWitness(res)
 	c02CaptureMatrix(res)
+	c02GateMatrix(res, rng, &cs)
 	cs.write(res, outDir, "Cases_C02.v")
+}
+
+// c02GateMatrix: T is refused for exactly ONE reason — a single gate (an authorizer check, an authority-block
+// check, a check of an earlier block, or the only allow policy) waits for the fact granted("x"), which nothing in T
+// or in the authorizer provides — and everything else passes.  The appended block B then supplies that fact in
+// every shape a block can take: as a fact, through a rule over an authority fact and NO fact of its own (a block
+// that is rules only), through a rule with an expression, as fact and rule together, through a chain of two rules;
+// alone or with unrelated content, appended directly to the authority or after one or two other blocks (which
+// themselves carry facts, only rules, or nothing).  T+B must be refused in every combination, and both runs are
+// model cases.  Random scenarios rarely fail for one reason only, so a change that lets the content of one block
+// SHAPE reach the authorizer's policies, or an earlier block's checks, goes unseen there.
+func c02GateMatrix(res *Result, rng *RNG, cs *azCases) {
+	granted := SPred{Name: "granted", Terms: []STerm{aStr("x")}}
+	src := SPred{Name: "user", Terms: []STerm{aStr("alice")}}
+	srcV := SPred{Name: "user", Terms: []STerm{aVar("u")}}
+	q := func(body ...SPred) SRule { return SRule{Head: SPred{Name: "query"}, Body: body} }
+	tru := SRule{Head: SPred{Name: "query"}, Exprs: []SExpr{{{Kind: 0, Val: aBool(true)}}}}
+	shapes := []struct {
+		name string
+		b    SBlock
+	}{
+		{"fact", SBlock{Facts: []SPred{granted}}},
+		{"rule-only", SBlock{Rules: []SRule{{Head: granted, Body: []SPred{srcV}}}}},
+		{"rule-only-expr", SBlock{Rules: []SRule{{Head: granted, Body: []SPred{srcV}, Exprs: []SExpr{{{Kind: 0, Val: aVar("u")}, {Kind: 0, Val: aStr("alice")}, {Kind: 2, Bin: 4}}}}}}},
+		{"rule-chain", SBlock{Rules: []SRule{{Head: SPred{Name: "mid", Terms: []STerm{aVar("u")}}, Body: []SPred{srcV}}, {Head: granted, Body: []SPred{{Name: "mid", Terms: []STerm{aVar("u")}}}}}}},
+		{"fact+rule", SBlock{Facts: []SPred{{Name: "note", Terms: []STerm{aInt(1)}}}, Rules: []SRule{{Head: granted, Body: []SPred{srcV}}}}},
+		{"rule-only+check", SBlock{Rules: []SRule{{Head: granted, Body: []SPred{srcV}}}, Checks: []SCheck{{q(src)}}}},
+		{"rule-from-own-fact", SBlock{Facts: []SPred{{Name: "seed", Terms: []STerm{aInt(7)}}}, Rules: []SRule{{Head: granted, Body: []SPred{{Name: "seed", Terms: []STerm{aVar("s")}}}}}}},
+	}
+	middles := []struct {
+		name string
+		bs   []SBlock
+	}{
+		{"none", nil},
+		{"facts", []SBlock{{Facts: []SPred{{Name: "note", Terms: []STerm{aInt(2)}}}}}},
+		{"rule-only", []SBlock{{Rules: []SRule{{Head: SPred{Name: "seen", Terms: []STerm{aVar("u")}}, Body: []SPred{srcV}}}}}},
+		{"check-only", []SBlock{{Checks: []SCheck{{q(src)}}}}},
+		{"rule-only,facts", []SBlock{{Rules: []SRule{{Head: SPred{Name: "seen", Terms: []STerm{aVar("u")}}, Body: []SPred{srcV}}}}, {Facts: []SPred{{Name: "note", Terms: []STerm{aInt(3)}}}}}},
+	}
+	gates := []string{"authorizer-check", "authority-check", "earlier-block-check", "allow-policy", "allow-policy-after-deny"}
+	for _, gate := range gates {
+		for _, mid := range middles {
+			for _, sh := range shapes {
+				auth := SBlock{Facts: []SPred{src, {Name: "resource", Terms: []STerm{aStr("file1")}}}}
+				sc := azScenario{MaxF: 1000, MaxI: 100}
+				blocks := append([]SBlock{}, mid.bs...)
+				allowAll := azOp{Kind: "policy", Policy: SPolicy{Queries: []SRule{tru}}}
+				switch gate {
+				case "authorizer-check":
+					sc.Ops = []azOp{{Kind: "check", Check: SCheck{q(granted)}}, allowAll}
+				case "authority-check":
+					auth.Checks = []SCheck{{q(granted)}}
+					sc.Ops = []azOp{allowAll}
+				case "earlier-block-check":
+					blocks = append([]SBlock{{Facts: []SPred{{Name: "note", Terms: []STerm{aInt(0)}}}, Checks: []SCheck{{q(granted)}}}}, blocks...)
+					sc.Ops = []azOp{allowAll}
+				case "allow-policy":
+					sc.Ops = []azOp{{Kind: "policy", Policy: SPolicy{Queries: []SRule{q(granted)}}}}
+				case "allow-policy-after-deny":
+					sc.Ops = []azOp{{Kind: "policy", Policy: SPolicy{Deny: true, Queries: []SRule{q(SPred{Name: "revoked", Terms: []STerm{aVar("r")}})}}},
+						{Kind: "policy", Policy: SPolicy{Queries: []SRule{q(granted)}}},
+						{Kind: "policy", Policy: SPolicy{Deny: true, Queries: []SRule{tru}}}}
+				}
+				sc.Ops = append(sc.Ops, azOp{Kind: "authorize"})
+				sc.Token = append([]SBlock{auth}, blocks...)
+				sc2 := sc
+				sc2.Token = append(append([]SBlock{}, sc.Token...), sh.b)
+				key := "gate=" + gate + " between=" + mid.name + " appended=" + sh.name
+				tok1, err1 := buildToken(sc.Token, rng.Fork())
+				tok2, err2 := buildToken(sc2.Token, rng.Fork())
+				if err1 != nil || err2 != nil {
+					res.Dist("harness:token-build-error")
+					continue
+				}
+				obs1, f1 := runScenarioGo(tok1, sc, entryAuthorizerFor)
+				obs2, f2 := runScenarioGo(tok2, sc2, entryAuthorizerFor)
+				res.Count("gate-matrix "+key, true)
+				res.Dist("gate-matrix:" + gate)
+				if f1 != "" || f2 != "" {
+					res.Violate("authorizer-creation", f1+f2, scReplay(sc2, nil, map[string]interface{}{"matrix": key}))
+					continue
+				}
+				if anyPanic(res, "authorize", sc, obs1) || anyPanic(res, "authorize", sc2, obs2) {
+					continue
+				}
+				v1, v2 := verdictOf(obs1), verdictOf(obs2)
+				if v1.Class == "success" {
+					res.Violate("gate-open-without-the-fact", "T is authorized although the only gate waits for a fact nothing provides ("+key+")", scReplay(sc, obs1, map[string]interface{}{"matrix": key}))
+					continue
+				}
+				if v2.Class == "success" {
+					res.Violate("attenuation-widens", fmt.Sprintf("T is refused (%s) but T+B is authorized (%s)", v1.Class, key), scReplay(sc2, obs2, map[string]interface{}{"matrix": key, "parent_verdict": v1.Class, "parent_failed": v1.Failed, "appended_block": blockString(sh.b)}))
+				}
+				cs.add(sc, obs1)
+				cs.add(sc2, obs2)
+			}
+		}
+	}
 }
 
 // c04SharedParsedAuthorizer: authorizer code given as text (parser.FromStringAuthorizer) and
